@@ -857,8 +857,22 @@ func heldDataSize(v ssa.Value, d int) bool {
 	if _, ok := lenOf(v); ok {
 		return true
 	}
+	// a count of occurrences in held data is at most its length
+	if cc, ok := v.(*ssa.Call); ok {
+		if callee := cc.Call.StaticCallee(); callee != nil {
+			switch callee.String() {
+			case "strings.Count", "bytes.Count":
+				return true
+			}
+		}
+	}
 	switch x := v.(type) {
 	case *ssa.BinOp:
+		if x.Op == token.SUB { // a held size less a small constant (an upper bound all the same)
+			if k, ok := constInt(x.Y); ok && k >= 0 && k <= 1<<16 {
+				return heldDataSize(x.X, d+1)
+			}
+		}
 		return x.Op == token.ADD && heldDataSize(x.X, d+1) && heldDataSize(x.Y, d+1)
 	case *ssa.Phi:
 		for _, e := range x.Edges {
